@@ -99,8 +99,16 @@ def run_cases(check: str, tier: str, seed: int, cases: list[dict], out) -> None:
         if use_mem:
             ctx.mem.begin()
         rec: dict = {"cid": case["cid"]}
+        interposer = _core.OpenInterposer().install() if getattr(mod, "OPEN_INTERPOSE", False) else None
         try:
-            res = mod.run(case, ctx)
+            try:
+                res = mod.run(case, ctx)
+            finally:
+                if interposer is not None:
+                    interposer.remove()
+                    _core.arm_fault(None)
+            if interposer is not None:
+                res.setdefault("cnt", {})["library_opened_files_wrapped"] = interposer.wrapped
             if getattr(mod, "HANDLE_CLOSE_CHECK", False):
                 # every stream object of the case has gone out of scope by now: dropping them (or anything done before) must
                 # not have closed a handle that belongs to the caller
